@@ -1,9 +1,9 @@
 """C01 -- HTTP/1.x request framing is unambiguous; malformed framing is rejected.
-Model: coq/H1/*.v ; harnesses: harness/h1req_h.c (header block level), harness/h1conn_h.c (connection level)"""
+Model: coq/H1/*.v ; harnesses: harness/h1req_h.c (header block level), props/h1conn.py (connection level, real server)"""
 import os, re
 import vlib
 from vlib import hx, unhx
-import C02
+import C02, h1conn
 
 LINK = [s for s in vlib.COMMON_SRC if s != "request.c"]
 
@@ -86,6 +86,8 @@ def monitor(case, impl_line):
         for v in te:
             if v.lower() != b"chunked":
                 return "Transfer-Encoding %r (not exactly chunked) accepted" % v
+        if len(te) > 1:
+            return "repeated Transfer-Encoding (the list 'chunked, chunked') accepted"
         if te and not v11:
             return "Transfer-Encoding on HTTP/1.0 accepted"
         if strict:
@@ -100,6 +102,8 @@ def monitor(case, impl_line):
                     return "bare LF line end accepted in strict mode"
             if not reqline.endswith(b"\r"):
                 return "bare LF after request line accepted in strict mode"
+            if alt >= 0 and (head_end < 0 or alt < head_end):
+                return "bare LF on the blank line that ends the header section accepted in strict mode"
             m = re.match(rb"\S+ (.*) HTTP/1\.[01]\r?$", reqline, flags=re.S)
             if m and int(o[1]) != 6 and any(c < 32 or c == 127 for c in m.group(1)):  # CONNECT: see DESIGN 6.2 (answered 405+close downstream)
                 return "control character in request-target accepted in strict mode"
@@ -238,6 +242,11 @@ def run(ctx):
     found = vlib.judge(ctx, "C01", "h1-head", cases, out_i, out_m, dis, monitor, describe, "h1req_h",
                        "H1.H1Model.h1_parse vs http_request_headers_process")
     ctx.add_samples([dict(case=describe(c), impl=o) for c, o in list(zip(cases, out_i))[:: max(1, len(cases) // 6)]])
+    # the assembled connection: header reader, body readers, keep-alive reuse, under random TCP segmentation
+    found = h1conn.run_system(ctx) or found
+    ctx.cov["rule"] += ("; connections: pipelines of 1-4 requests (GET, Content-Length and chunked bodies incl. extensions and trailers, HTTP/1.0, unknown targets) with 0-2 single-byte "
+                        "corruptions, every member of the rejected class and 29 malformed chunked bodies alone / after a keep-alive request / followed by a request that must not be answered, "
+                        "bodies that look like requests, blank-line and field-size-limit boundaries; each stream sent in one piece, cut at random points and cut at the trailer-limit boundary")
     if not ok and not found:
         ctx.proof_broken_violation()
 
@@ -245,6 +254,24 @@ def run(ctx):
 def replay(ctx, path):
     import json, shutil
     obj = json.load(open(path))
+    if obj["replay"].get("kind") == "system" and "stream" in obj["replay"]:
+        # replay one recorded byte stream against the running server, with the recorded segment sizes
+        import srv as srvmod
+        st = obj["replay"]["stream"].encode("latin-1"); sizes = obj["replay"].get("segments") or [len(st)]
+        segs = []; p0 = 0
+        for n in sizes: segs.append(st[p0:p0 + n]); p0 += n
+        sh = ('#!/bin/sh\nprintf \'Content-Type: text/plain\\r\\n\\r\\n\'\nprintf \'M=%s CL=%s BODY=\' "$REQUEST_METHOD" "$CONTENT_LENGTH"\ncat\n').encode()
+        s = srvmod.Server(ctx, "h1conn", 'cgi.assign = (".sh" => "/bin/sh")\nindex-file.names = ("index.html")\nserver.max-request-field-size = %d\n' % h1conn.MAXF,
+                          files={"index.html": b"INDEX", "cgi/e.sh": sh}, modules=["mod_cgi"])
+        s.start()
+        try: data, closed = h1conn.talk(s.port, segs)
+        finally: s.stop()
+        resp = h1conn.parse_responses(data, closed)
+        _, om, _ = vlib.run_lines(vlib.model_driver("C01"), ["C %d %d %s" % (h1conn.FLAGS, h1conn.MAXF, hx(st))])
+        why = h1conn.monitor(st, resp, closed); dis = h1conn.compare(om[0], resp, closed)
+        print("stream :", st[:600]); print("server :", [(a, b[:80]) for a, b in resp], "closed" if closed else "open"); print("model  :", om[0][:400]); print("monitor:", why); print("compare:", dis)
+        shutil.rmtree(ctx.scratch, ignore_errors=True)
+        return 1 if (why or dis) else 0
     case = obj["replay"].get("case")
     exe = vlib.cc_harness(ctx, "h1req_h", link_srcs=LINK)
     model = vlib.model_driver("C01")
